@@ -323,6 +323,10 @@ func (e *Enc) calleeFreshComps(callee *ssa.Function) map[string]bool {
 func (e *Enc) modularCall(fr *Frame, st *State, c *FuncContract, names []string, args []*Val, rt types.Type, site ssa.Instruction, calleeName string, sig *types.Signature) *Val {
 	cname := e.callOrdName(calleeName)
 	vars := map[string]*Val{}
+	for i := range args {
+		// positional names (unnamed parameters of func-typed fields / interface methods)
+		vars[fmt.Sprintf("arg%d", i)] = args[i]
+	}
 	for i, n := range names {
 		if i < len(args) && n != "" && n != "_" {
 			vars[n] = args[i]
